@@ -470,3 +470,43 @@ def v_std_inferred(run):
                               clause="dates / datetimes (and np.datetime64 scalars) are converted to a datetime64 dtype")
         except Exception as e:
             run.check(list(combo), False, expected="an array", got=f"raised {type(e).__name__}: {e}", clause="conversion answers")
+
+
+# ---- NA tables per dtype kind: na_value, na_dtype, "a vector cast to its na_dtype can hold its na_value as missing" ------------
+_NA_KINDS = {
+    "bool": lambda: Vector([True, False], bool), "int": lambda: Vector([1, 2], int), "uint": lambda: Vector([1, 2], np.uint8),
+    "float": lambda: Vector([0.5, 1.5], float), "datetime": lambda: Vector(["2020-01-01", "2020-01-02"], "datetime64[D]"),
+    "timedelta": lambda: Vector(np.array([1, 2], "timedelta64[D]")), "string": lambda: Vector(["a", "b"], str),
+    "fixedstr": lambda: Vector(np.array(["FI", "SE"], "<U2")), "bytes": lambda: Vector(np.array([b"x", b"y"], "S1")),
+    "object": lambda: Vector([1, "x"], object),
+}
+
+
+def _mk_na_table_driver(kind):
+    @driver(PV + f"na_value[kind {kind}]")
+    def _d(run):
+        run.bound = f"two vectors of kind {kind} (2 elements, empty): put na_value into the vector cast to na_dtype; it must be flagged missing, the others not"
+        for (empty,) in run.inputs(((e,) for e in (False, True))):
+            v = _NA_KINDS[kind]()
+            if empty:
+                v = v[:0]
+            try:
+                na, nd = v.na_value, v.na_dtype
+                w = v.astype(nd) if len(v) else Vector.fast([v.na_value], nd)
+                if len(v):
+                    w = w.copy()
+                    w[0] = na
+                flags = [bool(b) for b in w.is_na()]
+                ok = flags[0] is True and not any(flags[1:])
+                raw = w[0]
+                ok = ok and _raw_is_na_of(w, raw if not isinstance(raw, np.generic) or isinstance(raw, (np.floating, np.datetime64, np.timedelta64, np.str_)) else raw)
+                obs = [repr(na), str(nd), [repr(x) for x in w], flags]
+            except Exception as e:
+                ok, obs = False, f"raised {type(e).__name__}: {e}"
+            run.check([kind, empty], ok, expected="na_value stored in astype(na_dtype) is flagged by is_na; nothing else is", got=obs,
+                      clause="a vector cast to its na_dtype can hold its na_value as missing")
+    return _d
+
+
+for _k in _NA_KINDS:
+    _mk_na_table_driver(_k)
